@@ -248,6 +248,65 @@ Definition round64 (x : Z) : Z := DEFAULTALIGN * ((x + 63) / DEFAULTALIGN).
 End Scratch.
 
 (* ------------------------------------------------------------------------------------------------ *)
+(** * (d) forced schedules: the turn-based scheduler the harness installs through the yield hook      *)
+(* Decision k is taken when every live worker is blocked at its next yield point: `live` = the workers that
+   still have an item, ascending.  `n` = number of workers spawned, `last` = the worker chosen at decision k-1,
+   `r` = the k-th number of the record's random stream.
+     0 sequential by thread index      1 reverse (highest live index first)
+     2 round robin, one item at a time, ascending        3 round robin descending
+     4 last thread first, then ascending                 5 uniformly random
+     6 zig-zag between the two extreme live threads      7 random bursts (stay on the same worker w.p. 3/4) *)
+Section Policy.
+Local Open Scope nat_scope.
+
+Definition live_threads (rem : list nat) : list nat :=
+  filter (fun t => 0 <? nth t rem 0) (seq 0 (length rem)).
+Definition dec_nth (t : nat) (rem : list nat) : list nat := set_nth t (pred (nth t rem 0)) rem.
+
+Definition pick (policy : Z) (n : nat) (live : list nat) (last : option nat) (k : nat) (r : Z) : nat :=
+  let lo := hd 0 live in
+  let hi := List.last live 0 in
+  let rnd := fun q : Z => nth (Z.to_nat (q mod Z.of_nat (length live))) live lo in
+  match policy with
+  | 0%Z => lo
+  | 1%Z => hi
+  | 2%Z => match last with
+           | None => lo
+           | Some x => match find (fun t => x <? t) live with Some t => t | None => lo end
+           end
+  | 3%Z => match last with
+           | None => hi
+           | Some x => match find (fun t => t <? x) (rev live) with Some t => t | None => hi end
+           end
+  | 4%Z => if existsb (Nat.eqb (n - 1)) live then n - 1 else lo
+  | 5%Z => rnd r
+  | 6%Z => if Nat.even k then hi else lo
+  | 7%Z => match last with
+           | Some x => if existsb (Nat.eqb x) live && negb (r mod 4 =? 0)%Z then x else rnd (r / 4)%Z
+           | None => rnd (r / 4)%Z
+           end
+  | _ => lo
+  end.
+
+Fixpoint policy_sched (fuel : nat) (policy : Z) (n : nat) (rem : list nat) (last : option nat) (k : nat)
+         (rs : list Z) : list nat :=
+  match fuel with
+  | O => []
+  | S f => match live_threads rem with
+           | [] => []
+           | live => let t := pick policy n live last k (hd 0%Z rs) in
+                     t :: policy_sched f policy n (dec_nth t rem) (Some t) (S k) (tl rs)
+           end
+  end.
+
+(* the schedule (list of thread numbers, as consumed by `exec`) that policy `policy` with random stream `rs`
+   produces on the work lists `w` *)
+Definition forced_sched (policy : Z) (rs : list Z) (w : list (list item)) : list nat :=
+  policy_sched (total w) policy (length w) (map (@length item) w) None 0 rs.
+
+End Policy.
+
+(* ------------------------------------------------------------------------------------------------ *)
 (** * correspondence entry points                                                                    *)
 Section Run.
 Local Open Scope Z_scope.
@@ -266,6 +325,78 @@ Definition observe (w : list (list item)) : list (list Z) :=
 Definition run_rev (w : list (list item)) (gg : nat -> unit -> Z * unit) (init : nat -> Z) : option (state Z unit) :=
   let st0 := init_state Z unit w init (fun _ => tt) in
   run_mt Z unit gg (Some w) init (fun _ => tt) (rev_sched Z unit gg (total w) st0).
+
+(* ---- records produced through the yield hook (harness feature c20hook) ----
+   what the hook lets the harness observe: the (thread_idx, item) events.  Log-only kinds report them grouped by
+   thread (threads ascending, each thread's items in the order it passed them); forced kinds report them in the
+   global order in which the scheduler granted them. *)
+Definition grouped (w : list (list item)) : list (list Z) :=
+  [ zs (seq 0 (length w)); zs (map (@length item) w); zs (map snd (concat w)) ].
+Definition granted (tr : list (nat * item)) : list (list Z) :=
+  [ zs (map fst tr); zs (map (fun e => snd (snd e)) tr) ].
+Definition status32 (o : nat -> Z) : list Z :=
+  map (fun j => let x := o j in
+                if x =? Z.of_nat j then 1 else if x =? -1 then 0 else if x =? -2 then -1 else 100 + x) (seq 0 32).
+Definition nz (n : nat) : Z := Z.of_nat n.
+
+Definition run_c20_hook (code : Z) (ps : list Z) (vs : list (list Z)) : option (list (list Z)) :=
+  let rs := nth 0 vs [] in
+  match code with
+  | 20008 =>  (* [be, n, items, threads, extra, seed]: log only, state_size = 0: every slot zeroed *)
+      let items := pn ps 2 in let threads := pn ps 3 in let extra := pn ps 4 in
+      match eval_work threads items with
+      | None => None
+      | Some w => Some (grouped w ++ [repeat 0 (items + extra); [nz (length w); nz (length w); 1]])
+      end
+  | 20009 =>  (* [be, threads, start, count, vseed]: log only, real preparation *)
+      let threads := pn ps 1 in let start := pn ps 2 in let count := pn ps 3 in
+      match prepare_work threads 32 start count with
+      | None => None
+      | Some w =>
+          let st0 := init_state Z unit w (fun _ => -2) (fun _ => tt) in
+          match prepare_mt Z unit idg (-1) threads 32 start count (fun _ => -2) (fun _ => tt)
+                           (auto_sched Z unit idg (total w) st0) with
+          | None => None
+          | Some o => Some (grouped w ++ [status32 o; [1; nz (length w); nz (length w); 1]])
+          end
+      end
+  | 20010 =>  (* [be, n, items, threads, extra, seed, policy], vs[0] = random stream: forced schedule, one Cmux per item *)
+      let items := pn ps 2 in let threads := pn ps 3 in let extra := pn ps 4 in
+      match eval_work threads items with
+      | None => None
+      | Some w =>
+          match run_mt Z unit idg (Some w) (fun _ => -2) (fun _ => tt) (forced_sched (p ps 6) rs w) with
+          | None => None
+          | Some st =>
+              let o := zero_range Z (-1) items extra (outs Z unit st) in
+              Some (granted (trace Z unit st) ++ [tabulate o (items + extra); [1; nz (length w); nz (length w); 1]])
+          end
+      end
+  | 20011 =>  (* [be, threads, start, count, vseed, policy], vs[0] = random stream: forced schedule, real preparation *)
+      let threads := pn ps 1 in let start := pn ps 2 in let count := pn ps 3 in
+      match prepare_work threads 32 start count with
+      | None => None
+      | Some w =>
+          match run_mt Z unit idg (Some w) (fun _ => -2) (fun _ => tt) (forced_sched (p ps 5) rs w) with
+          | None => None
+          | Some st =>
+              let o := zero_range Z (-1) (start + count) (32 - (start + count))
+                         (zero_range Z (-1) 0 start (outs Z unit st)) in
+              Some (granted (trace Z unit st) ++ [status32 o; [1; nz (length w); nz (length w)]])
+          end
+      end
+  | 20012 =>  (* [be, op, threads, aseed, bseed, policy, items], vs[0] = random stream: forced schedule, circuit wrappers *)
+      let threads := pn ps 2 in let items := pn ps 6 in
+      match eval_work threads items with
+      | None => None
+      | Some w =>
+          match run_mt Z unit idg (Some w) (fun _ => -2) (fun _ => tt) (forced_sched (p ps 5) rs w) with
+          | None => None
+          | Some st => Some (granted (trace Z unit st) ++ [[1; 1; nz (length w); nz (length w)]])
+          end
+      end
+  | _ => None
+  end.
 
 Definition run_c20 (code : Z) (ps : list Z) (vs : list (list Z)) : option (list (list Z)) :=
   match code with
@@ -324,7 +455,7 @@ Definition run_c20 (code : Z) (ps : list Z) (vs : list (list Z)) : option (list 
       | None => None
       | Some _ => Some [[1]]
       end
-  | _ => None
+  | _ => run_c20_hook code ps vs
   end.
 
 (* ---- direct oracles: the property statement on what the implementation did, no model definition used ---- *)
@@ -352,8 +483,63 @@ Fixpoint windows_ok (lo hi take : Z) (ws : list (Z * Z)) : bool :=
   | (a, l) :: r => (lo <=? a) && (a mod 64 =? 0) && (l =? take) && (a + l <=? hi) && windows_ok (a + l) hi take r
   end.
 
+(* ---- events reported through the yield hook ---- *)
+(* log-only kinds: threads 0..k-1 each reported >= 1 item, k <= threads, and the per-thread lists, in thread order,
+   enumerate base..base+items-1: no item skipped, none twice *)
+Definition grouped_ok (base items threads : Z) (tids lens all : list Z) : bool :=
+  list_eqb tids (iota 0 (length lens))
+  && partition_ok base items threads (prefix_sums base lens) lens all.
+(* forced kinds: the same statement on the global event sequence (thread of event i, item of event i) *)
+Definition of_thread (t : Z) (ths its : list Z) : list Z :=
+  map snd (filter (fun e => fst e =? t) (combine ths its)).
+Definition events_ok (base items threads : Z) (ths its : list Z) : bool :=
+  Nat.eqb (length ths) (length its)
+  && Nat.eqb (length its) (Z.to_nat items)
+  && forallb (fun t => (0 <=? t) && (t <? threads)) ths
+  && list_eqb (concat (map (fun t => of_thread t ths its) (iota 0 (Z.to_nat (Z.min threads items))))) (iota base (Z.to_nat items)).
+(* spawned = number of DONE announcements = number of threads that reported, all >= 1 *)
+Definition counts_ok (nthreads : Z) (spawned done : Z) : bool :=
+  (spawned =? nthreads) && (done =? nthreads) && (1 <=? nthreads).
+Definition nthreads_of (ths : list Z) : Z := fold_left Z.max ths (-1) + 1.
+
 Definition oracle_c20 (code : Z) (ps : list Z) (vs outs : list (list Z)) : Z :=
   match code with
+  | 20008 =>
+      let items := p ps 2 in let threads := p ps 3 in let extra := p ps 4 in
+      if (items <? 1) || (threads <? 1) then 2 else
+      ob (grouped_ok 0 items threads (v outs 0) (v outs 1) (v outs 2)
+          && list_eqb (v outs 3) (repeat 0 (Z.to_nat (items + extra)))
+          && counts_ok (Z.of_nat (length (v outs 1))) (nth 0 (v outs 4) 0) (nth 1 (v outs 4) 0)
+          && (nth 2 (v outs 4) 0 =? 1))
+  | 20009 =>
+      let threads := p ps 1 in let start := p ps 2 in let count := p ps 3 in
+      if (count <? 1) || (threads <? 1) || (32 <? start + count) then 2 else
+      ob (grouped_ok start count threads (v outs 0) (v outs 1) (v outs 2)
+          && list_eqb (v outs 3) (map (fun j => if (start <=? j) && (j <? start + count) then 1 else 0) (iota 0 32))
+          && (nth 0 (v outs 4) 0 =? 1)
+          && counts_ok (Z.of_nat (length (v outs 1))) (nth 1 (v outs 4) 0) (nth 2 (v outs 4) 0)
+          && (nth 3 (v outs 4) 0 =? 1))
+  | 20010 =>
+      let items := p ps 2 in let threads := p ps 3 in let extra := p ps 4 in
+      if (items <? 1) || (threads <? 1) then 2 else
+      ob (events_ok 0 items threads (v outs 0) (v outs 1)
+          && list_eqb (v outs 2) (iota 0 (Z.to_nat items) ++ repeat (-1) (Z.to_nat extra))
+          && (nth 0 (v outs 3) 0 =? 1)
+          && counts_ok (nthreads_of (v outs 0)) (nth 1 (v outs 3) 0) (nth 2 (v outs 3) 0)
+          && (nth 3 (v outs 3) 0 =? 1))
+  | 20011 =>
+      let threads := p ps 1 in let start := p ps 2 in let count := p ps 3 in
+      if (count <? 1) || (threads <? 1) || (32 <? start + count) then 2 else
+      ob (events_ok start count threads (v outs 0) (v outs 1)
+          && list_eqb (v outs 2) (map (fun j => if (start <=? j) && (j <? start + count) then 1 else 0) (iota 0 32))
+          && (nth 0 (v outs 3) 0 =? 1)
+          && counts_ok (nthreads_of (v outs 0)) (nth 1 (v outs 3) 0) (nth 2 (v outs 3) 0))
+  | 20012 =>
+      let threads := p ps 2 in let items := p ps 6 in
+      if (items <? 1) || (threads <? 1) then 2 else
+      ob (events_ok 0 items threads (v outs 0) (v outs 1)
+          && (nth 0 (v outs 2) 0 =? 1) && (nth 1 (v outs 2) 0 =? 1)
+          && counts_ok (nthreads_of (v outs 0)) (nth 2 (v outs 2) 0) (nth 3 (v outs 2) 0))
   | 20001 =>
       let items := p ps 2 in let threads := p ps 3 in let extra := p ps 4 in
       if (items <? 1) || (threads <? 1) then 2 else
